@@ -654,6 +654,23 @@ Definition node_snap (n : option node) (keys : list val) : val :=
 Definition ctx_snap (c : ctx) (q : list (string * list val)) : list val :=
   map (fun '(h, keys) => node_snap (fres c h) keys) q.
 
+(* After a panic inside abort() the resources visited before the panicking one have been rolled
+   back and the others have not (Go map iteration order): only what the peers of the
+   non-transactional kinds hold is compared. *)
+Definition leaf_nontx (l : leaf) : bool :=
+  match l with LSOut _ _ _ => true | LRelaxed _ _ _ _ => true | _ => false end.
+Definition node_nontx (n : option node) (keys : list val) : bool :=
+  match n with
+  | Some (inl l) => leaf_nontx l
+  | Some (inr m) => match keys with
+                    | k :: _ => match fres m k with Some l => leaf_nontx l | None => false end
+                    | [] => false
+                    end
+  | None => false
+  end.
+Definition ctx_snap_panic (c : ctx) (q : list (string * list val)) : list val :=
+  map (fun '(h, keys) => if node_nontx (fres c h) keys then node_snap (fres c h) keys else VD) q.
+
 (* one scripted attempt as the harness reports it: outcome code, the values the successful
    operations returned (in order, VD for a write; the read of .pc dropped), the snapshot afterwards *)
 Record attempt := mkAttempt {
@@ -675,7 +692,7 @@ Fixpoint run_attempts (c : ctx) (ats : list attempt) (q : list (string * list va
       let '(c1, o) := ctx_run_section c0 (attempt_prog (at_ops a)) (None :: at_fl a)
                         (fun h => existsb (String.eqb h) (at_pf a)) in
       let tr := ctx_section_trace c0 (attempt_prog (at_ops a)) (None :: at_fl a) in
-      (out_code o, VT (tl tr) :: ctx_snap c1 q) ::
+      (out_code o, VT (tl tr) :: match o with AbortPanicked => ctx_snap_panic c1 q | _ => ctx_snap c1 q end) ::
       match o with
       | Crashed | AbortPanicked => []
       | _ => run_attempts c1 rest q
